@@ -1,4 +1,5 @@
 import NflowsModel.Audit.Tool
 import NflowsModel.Properties.C12
+import NflowsModel.Properties.C12E
 
 #audit_namespace Properties.C12
